@@ -1,9 +1,155 @@
 import ALV.Common.Json
+import ALV.Model.C15
+import ALV.Spec.C15
+/-!
+  Driver of C15.  A case is a whole history:
+    {"entry":"mk", "ops":[["set",["a","b"],0],["del","a"],["get","b"],["gett",["b"]],
+                          ["k2k","b"],["v2k",0],["len"]], "keys":["a","b","zz"], "vals":[0,1,9]}
+    {"entry":"sd", "ops":[["set",["a"],0],["getattr","a"],["setattr","a",1],["setattr",null,1],
+                          ["delattr","a"],["delattr",null],["default"],["call"],["del","a"]], …}
+  Answer: for the model and for the spec, the result of every step and the public view of the
+  state after every step, restricted to the universe `keys` / `vals`.
+  Keys are strings, values integers (for `sd` the integer is the identity of a strategy function).
+-/
 namespace ALV.Driver.C15
-open ALV ALV.J
+open ALV ALV.J ALV.C15
 
-/-- stub: the C15 slice is not built yet -/
-def handle (entry : String) (_j : Json) : Except String Json :=
-  throw s!"C15: unknown entry {entry}"
+abbrev K := String
+abbrev V := Int
+
+def jKeys (t : List K) : Json := arr Json.str t
+
+def jRes : Res K V → Json
+  | .done => Json.null
+  | .keyError => Json.mkObj [("err", Json.str "KeyError")]
+  | .attrError => Json.mkObj [("err", Json.str "AttributeError")]
+  | .notImpl => Json.str "NotImplemented"
+  | .val v => Json.mkObj [("v", Json.int v)]
+  | .keys t => Json.mkObj [("t", jKeys t)]
+  | .num n => natToJson n
+
+def jOptVal (o : Option V) : Json := jRes (Res.ofVal o)
+def jOptKeys (o : Option (List K)) : Json := jRes (Res.ofKeys o)
+
+def getKeys (j : Json) : Except String (List K) := getList getStr j
+
+def parseOp (j : Json) : Except String (Op K V) := do
+  let a ← getArr j
+  match a with
+  | [Json.str "set", ks, v] => pure (.set (← getKeys ks) (← getInt v))
+  | [Json.str "del", k] => pure (.del (← getStr k))
+  | [Json.str "get", k] => pure (.get (← getStr k))
+  | [Json.str "gett", t] => pure (.getT (← getKeys t))
+  | [Json.str "k2k", k] => pure (.key2keys (← getStr k))
+  | [Json.str "v2k", v] => pure (.value2keys (← getInt v))
+  | [Json.str "len"] => pure .len
+  | _ => throw s!"C15: bad mk op {j.compress}"
+
+def getAttrName (j : Json) : Except String (Option K) :=
+  match j with
+  | Json.null => pure none
+  | Json.str s => pure (some s)
+  | _ => throw "C15: attribute name must be a string or null (= default)"
+
+def parseSOp (j : Json) : Except String (SOp K V) := do
+  let a ← getArr j
+  match a with
+  | [Json.str "set", ks, v] => pure (.set (← getKeys ks) (← getInt v))
+  | [Json.str "del", k] => pure (.del (← getStr k))
+  | [Json.str "get", k] => pure (.get (← getStr k))
+  | [Json.str "getattr", k] => pure (.getattr (← getStr k))
+  | [Json.str "setattr", n, v] => pure (.setattr (← getAttrName n) (← getInt v))
+  | [Json.str "delattr", n] => pure (.delattr (← getAttrName n))
+  | [Json.str "default"] => pure .default
+  | [Json.str "call"] => pure .call
+  | [Json.str "len"] => pure .len
+  | _ => throw s!"C15: bad sd op {j.compress}"
+
+def jPairs {α β} (f : α → Json) (g : β → Json) (l : List (α × β)) : Json :=
+  arr (fun (p : α × β) => Json.arr [f p.1, g p.2]) l
+
+/-- public (and private) view of the three-map model -/
+def viewModel (s : St K V) (keys : List K) (vals : List V) (tuples : List (List K)) : List (String × Json) :=
+  [ ("len", natToJson (len s)),
+    ("iter", arr Json.int (iterValues s)),
+    ("items", jPairs jKeys Json.int s.store),
+    ("keys_dict", jPairs Json.str jKeys s.keysDict),
+    ("inv_dict", jPairs Json.int jKeys s.invDict),
+    ("get", arr (fun k => jOptVal (getitem s k)) keys),
+    ("k2k", arr (fun k => jOptKeys (key2keys s k)) keys),
+    ("v2k", arr (fun v => jKeys (value2keys s v)) vals),
+    ("gett", arr (fun t => jOptVal (getTuple s t)) tuples) ]
+
+def viewSpec (l : Log K V) (keys : List K) (vals : List V) (tuples : List (List K)) : List (String × Json) :=
+  [ ("len", natToJson (specLen l)),
+    ("iter", arr Json.int (specValues l)),
+    ("items", jPairs jKeys Json.int (specItems l)),
+    ("get", arr (fun k => jOptVal (specGet l k)) keys),
+    ("k2k", arr (fun k => jOptKeys (specKey2keys l k)) keys),
+    ("v2k", arr (fun v => jKeys (keysOf l v)) vals),
+    ("gett", arr (fun t => jOptVal (specGetT l t)) tuples) ]
+
+def jAttrName : Option K → Json
+  | none => Json.null
+  | some k => Json.str k
+
+/-- `all = false`: the view is reported after the last step only -/
+def traceMK (all : Bool) (keys : List K) (vals : List V) (tuples : List (List K)) :
+    St K V → Log K V → List (Op K V) → List Json × List Json
+  | _, _, [] => ([], [])
+  | s, l, op :: ops =>
+    let m := step s op
+    let p := specStep l op
+    let t := traceMK all keys vals tuples m.1 p.1 ops
+    let v := all || ops.isEmpty
+    (Json.mkObj (("res", jRes m.2) :: (if v then viewModel m.1 keys vals tuples else [])) :: t.1,
+     Json.mkObj (("res", jRes p.2) :: (if v then viewSpec p.1 keys vals tuples else [])) :: t.2)
+
+def viewSDModel (s : SD K V) (keys : List K) (vals : List V) (tuples : List (List K)) : List (String × Json) :=
+  ("attrs", jPairs jAttrName Json.int s.attrs)
+    :: ("default", jRes (Res.ofDefault (sdDefault s)))
+    :: ("sditer", arr Json.int (sdIter s))
+    :: ("getattr", arr (fun k => match sdGetattr s (some k) with
+          | some v => jRes (.val v) | none => jRes .attrError) keys)
+    :: viewModel s.mkd keys vals tuples
+
+def viewSDSpec (g : SDSpec K V) (keys : List K) (vals : List V) (tuples : List (List K)) : List (String × Json) :=
+  ("attrs", jPairs Json.str Json.int g.attr)
+    :: ("default", jRes (Res.ofDefault g.default))
+    :: ("getattr", arr (fun k => match dget g.attr k with
+          | some v => jRes (.val v) | none => jRes .attrError) keys)
+    :: viewSpec g.log keys vals tuples
+
+def traceSD (all : Bool) (keys : List K) (vals : List V) (tuples : List (List K)) :
+    SD K V → SDSpec K V → List (SOp K V) → List Json × List Json
+  | _, _, [] => ([], [])
+  | s, g, op :: ops =>
+    let m := sdStep s op
+    let p := sdSpecStep g op
+    let t := traceSD all keys vals tuples m.1 p.1 ops
+    let v := all || ops.isEmpty
+    (Json.mkObj (("res", jRes m.2) :: (if v then viewSDModel m.1 keys vals tuples else [])) :: t.1,
+     Json.mkObj (("res", jRes p.2) :: (if v then viewSDSpec p.1 keys vals tuples else [])) :: t.2)
+
+def handle (entry : String) (j : Json) : Except String Json := do
+  let keys ← getKeys (← field j "keys")
+  let vals ← getList getInt (← field j "vals")
+  let tuples ← match j.getObjVal? "tuples" with
+    | some t => getList getKeys t
+    | none => pure []
+  let all := match j.getObjVal? "view" with
+    | some (Json.str "last") => false
+    | _ => true
+  match entry with
+  | "mk" =>
+    let ops ← getList parseOp (← field j "ops")
+    let t := traceMK all keys vals tuples (St.empty) ([] : Log K V) ops
+    let last := keys.map fun k => jOptVal (lastAssigned k ops none)
+    pure <| Json.mkObj [("model", Json.arr t.1), ("spec", Json.arr t.2), ("last", Json.arr last)]
+  | "sd" =>
+    let ops ← getList parseSOp (← field j "ops")
+    let t := traceSD all keys vals tuples (SD.empty) ({} : SDSpec K V) ops
+    pure <| Json.mkObj [("model", Json.arr t.1), ("spec", Json.arr t.2)]
+  | _ => throw s!"C15: unknown entry {entry}"
 
 end ALV.Driver.C15
